@@ -158,9 +158,12 @@ class Check:
         self.build_out = out
         if rc != 0 or "DRIVER-FAIL" in out:
             self.l1_broken.append(("executable-model", "the extracted model / driver does not build: " + out.strip()[-400:]))
-        users = {"tr_pathrules": ["C07"], "tr_constraints": ["C16"], "tr_forwarding": ["C11"], "tr_attrflow": ["C12"],
-                 "tr_kauriformulas": ["C08"], "tr_dataconstants": ["C20"], "tr_fdiv": ["C01", "C02", "C13", "C17"],
-                 "tr_geom": ["C01", "C02", "C13", "C17"], "tr_models": ["C03", "C18", "C04", "C06"]}
+        users = {"tr_pathrules": ["C07"], "tr_constraints": ["C16"], "tr_validation": ["C16"], "tr_forwarding": ["C11"],
+                 "tr_attrflow": ["C12"], "tr_kauriformulas": ["C08"], "tr_dataconstants": ["C20"], "tr_datagen": ["C20"],
+                 "tr_fdiv": ["C01", "C02", "C13", "C17"], "tr_geom": ["C01", "C02", "C13", "C17"],
+                 "tr_models": ["C03", "C18", "C04", "C06"], "tr_mlcl": ["C14"], "tr_prox": ["C05"], "tr_batch": ["C10"],
+                 "tr_kauriprint": ["C19"], "tr_douglas": ["C15"], "tr_coherence": ["C04"], "tr_kaurifit": ["C09", "C04"],
+                 "tr_selection": ["C06"]}
         for m in re.finditer(r"TRANSLATOR-FAIL (\S+)", out):
             name = os.path.basename(m.group(1))[:-3]
             if self.pid in users.get(name, [self.pid]):
@@ -182,15 +185,42 @@ class Check:
             pass
         return name
 
+    def _dep_closure(self):
+        """Files (relative .v paths) the property's statement files depend on, from coq_makefile's .Makefile.d."""
+        deps = {}
+        try:
+            txt = open(f"{COQ}/.Makefile.d").read().replace("\\\n", " ")
+        except OSError:
+            return None
+        for line in txt.split("\n"):
+            if ":" not in line:
+                continue
+            lhs, rhs = line.split(":", 1)
+            tg = [t[:-1] for t in lhs.split() if t.endswith(".vo")]
+            ds = [d[:-1] for d in rhs.split() if d.endswith(".vo") and not d.startswith("/")]
+            for t in tg:
+                deps.setdefault(t, set()).update(ds)
+        todo, seen = list(self.props_files), set()
+        while todo:
+            f = todo.pop()
+            if f in seen:
+                continue
+            seen.add(f)
+            todo.extend(deps.get(f, ()))
+        return seen
+
     def _explain_make_failure(self):
-        """Which files/lemmas failed in the last make (from build/make.log)."""
+        """Which files/lemmas failed in the last make (from build/make.log), restricted to this property's dependencies."""
         res = []
+        closure = self._dep_closure()
         try:
             log = open(f"{VERIF}/build/make.log").read()
         except OSError:
             return res
         for m in re.finditer(r'File "\./([^"]+)", line (\d+), characters [^\n]*\n(Error:[^\n]*(?:\n[^\n]+){0,6})', log):
             f, ln, msg = m.group(1), int(m.group(2)), m.group(3)
+            if closure is not None and f not in closure:
+                continue
             res.append((f, self._enclosing(f"{COQ}/{f}", ln), msg.replace("\n", " ")[:300]))
         return res
 
